@@ -265,7 +265,9 @@ def closure_pred(ex, clo, argkind='char'):
 
 
 def call_closure(ex, clo, args):
-    return ex.call_fn(clo.fnname, [Ref(Cell(clo))] + args, {})
+    f = ex.fns[clo.fnname][0]
+    byref = f.types[f.args[0]].lstrip().startswith('&')
+    return ex.call_fn(clo.fnname, [Ref(Cell(clo)) if byref else clo] + args, {})
 
 
 # ------------------------------------------------------------ find / split models
@@ -516,18 +518,44 @@ def resolve_crate_call(ex, f, argv, frame):
         if dn in ex.fns:
             return True, ex.call_fn(dn, argv, {'Self': m.group(1)})
     # inherent method  path::Type::<..>::method::<..>
-    m = re.match(r'^([\w:]+?)(::<[^()]*>)?::(\w+)(::<(.*)>)?$', f)
-    if m and not f.startswith(('std::', 'core::', 'alloc::')):
-        tyname = m.group(1).split('::')[-1]
-        for (itr, ity, imeth, name) in prog.impl_index:
-            if itr is None and imeth == m.group(3) and last_seg(strip_generics(ity)) == tyname:
-                gen = {}
-                if m.group(5):
-                    names = prog.generic_params(name)
-                    vals = [v for v in split_top(m.group(5)) if not v.startswith("'")]
-                    gen = dict(zip(names, vals))
-                return True, ex.call_fn(name, argv, gen)
+    if not f.startswith(('std::', 'core::', 'alloc::', '<')):
+        segs = split_path(f)
+        names = [x for x in segs if not x.startswith('<')]
+        if len(names) >= 2:
+            meth, tyname = names[-1], names[-2]
+            mgen = segs[-1][1:-1] if segs[-1].startswith('<') else None
+            for (itr, ity, imeth, name) in prog.impl_index:
+                if itr is None and imeth == meth and last_seg(strip_generics(ity)) == tyname:
+                    gen = {}
+                    if mgen:
+                        gnames = prog.generic_params(name)
+                        vals = [v for v in split_top(mgen) if not v.startswith("'")]
+                        gen = dict(zip(gnames, vals))
+                    return True, ex.call_fn(name, argv, gen)
     return False, None
+
+
+def split_path(f):
+    """split a path on top-level `::` (angle brackets nest): a::B::<'_>::m::<u8> -> [a, B, <'_>, m, <u8>]"""
+    out = []
+    depth = 0
+    cur = ''
+    i = 0
+    while i < len(f):
+        c = f[i]
+        if c == '<':
+            depth += 1
+        elif c == '>' and f[i - 1] != '-':
+            depth -= 1
+        if depth == 0 and f.startswith('::', i):
+            out.append(cur)
+            cur = ''
+            i += 2
+            continue
+        cur += c
+        i += 1
+    out.append(cur)
+    return out
 
 
 def ver_of(t):
@@ -630,6 +658,23 @@ def dispatch(ex, func, argv, frame):
             if 'Range<usize>' in f:
                 return str_index(ex, s, r.get('start'), r.get('end'), 'Range')
         raise Unsupported('index ' + f + ' on ' + repr(s))
+    if g in ('core::str::<impl str>::get', 'core::slice::<impl [u8]>::get', 'core::slice::<impl [T]>::get') and 'Range' in f:
+        s = deref(a[0])
+        r = a[1]
+        start = r.get('start') if 'start' in r.names else 0
+        end = r.get('end') if 'end' in r.names else s.len()
+        ln = s.len()
+        if not ex.branch(and_(le(start, end), le(end, ln))):
+            return NoneV()
+        if s.is_str:
+            for pos in (start, end):
+                if is_c(pos) and pos == 0:
+                    continue
+                b = s.buf.at(add(s.start, pos))
+                isb = or_(eq(pos, ln), eq(pos, 0), not_(and_(ge(b, 128), lt(b, 192))))
+                if not ex.branch(isb):
+                    return NoneV()
+        return Some(Str(s.buf, add(s.start, start), add(s.start, end), s.is_str))
     if g == 'core::str::<impl str>::splitn':
         fn, key = closure_pred(ex, a[2])
         return Opaque('splitn', s=a[0], pos=a[0].start, count=a[1], finished=False, pred=fn,
@@ -655,6 +700,21 @@ def dispatch(ex, func, argv, frame):
             raise Unsupported('next_if with a pending peek')
         it.peeked = v
         return NoneV()
+    if g == 'std::option::Option::map_or':
+        if a[0].variant == 'Some':
+            return call_closure(ex, a[2], [a[0].fields[0]])
+        return a[1]
+    if g == 'std::option::Option::map':
+        if a[0].variant == 'Some':
+            fn = a[1]
+            if isinstance(fn, Closure):
+                return Some(call_closure(ex, fn, [a[0].fields[0]]))
+            raise Unsupported('Option::map with ' + repr(fn))
+        return NoneV()
+    if g == 'std::option::Option::is_some_and':
+        if a[0].variant == 'Some':
+            return call_closure(ex, a[1], [a[0].fields[0]])
+        return False
     if g == 'std::option::Option::ok_or':
         return Ok(a[0].fields[0]) if a[0].variant == 'Some' else Err(a[1])
     if g == 'std::option::Option::filter':
@@ -752,6 +812,49 @@ def dispatch(ex, func, argv, frame):
         return Opaque('String', s=s)
     if g.endswith('as std::clone::Clone>::clone'):
         return deref(a[0])
+    if g == 'core::fmt::rt::Argument::new_display':
+        t = f[f.index('new_display::<') + 14:-1]
+        return Opaque('fmtarg', ty=t, v=deref(a[0]))
+    if g == 'std::fmt::Arguments::new':
+        tpl = deref(a[0])
+        args = deref(a[1])
+        if isinstance(tpl, Str):
+            data = tpl.bytes()
+        elif isinstance(tpl, Opaque) and tpl.kind == 'bytearray':
+            data = tpl.buf.data
+        else:
+            raise Unsupported('fmt template ' + repr(tpl))
+        items = args.items if isinstance(args, (Tuple, ArrSlice)) else None
+        if items is None:
+            raise Unsupported('fmt args ' + repr(args))
+        return Opaque('fmtargs', template=bytes(data), args=list(items))
+    if g == 'std::fmt::Formatter::write_fmt':
+        # this nightly's format template byte-code: <len 1..0x7f><len literal bytes> | 0xC0 = next argument | 0x00 = end
+        fm = deref(a[0])
+        fa = a[1]
+        data = fa.template
+        i = 0
+        nxt = 0
+        while True:
+            if i >= len(data):
+                raise Unsupported('fmt template without terminator')
+            b = data[i]
+            if b == 0:
+                break
+            if b == 0xC0:
+                if nxt >= len(fa.args):
+                    raise Unsupported('fmt template uses more arguments than supplied')
+                fm.pieces.append(fa.args[nxt])
+                nxt += 1
+                i += 1
+            elif b < 0x80:
+                fm.pieces.append(Str(Buf('lit', data=bytes(data[i + 1:i + 1 + b])), 0, b))
+                i += 1 + b
+            else:
+                raise Unsupported('fmt template opcode 0x%02x' % b)
+        if nxt != len(fa.args):
+            raise Unsupported('fmt template does not use all arguments')
+        return Ok(Tuple([]))
     if g == 'std::fmt::Formatter::write_str':
         fm = deref(a[0])
         fm.pieces.append(deref(a[1]))
